@@ -115,6 +115,33 @@ def ctype_name(t):
     return s
 
 
+def round_to_double(v):
+    """the value of (double)v for a 64-bit C integer v (round to nearest, ties to even): exact for |v| <= 2^53; for
+    2^53 < |v| < 2^54 the nearest even integer, a tie going to the multiple of 4; beyond that a value within a relative 2^-53 of v
+    (over-approximation).  Memoised on the argument: the same integer always converts to the same double."""
+    import z3
+    if isinstance(v, int):
+        return float(v)
+    ctx = core.cur()
+    x = core.to_z3_int(v)
+    key = ('round_to_double', x.get_id())
+    hit = ctx.memo.get(key)
+    if hit is not None:
+        return hit[1]
+    B = 2 ** 53
+    q = x / 2
+    r2 = z3.If(x % 2 == 0, x, z3.If(q % 2 == 0, 2 * q, 2 * q + 2))
+    f = z3.Real(ctx.name('dbl'))
+    xr = z3.ToReal(x)
+    ax = z3.If(xr >= 0, xr, -xr)
+    far = z3.Or(z3.And(x <= 2 * B, x >= -2 * B), z3.And((f - xr) * B <= ax, (xr - f) * B <= ax))
+    ctx.add(far)
+    term = z3.If(z3.And(x <= B, x >= -B), xr, z3.If(z3.And(x < 2 * B, x > -2 * B), z3.ToReal(r2), f))
+    out = SFloat(0, term)
+    ctx.memo[key] = (x, out)
+    return out
+
+
 def is_c_int(t):
     return t is not None and getattr(t, 'is_int', False) and not getattr(t, 'is_pyobject', False)
 
@@ -354,6 +381,14 @@ class Interp:
 
     def ev_TypecastNode(self, node, env):
         v = self.ev(node.operand, env)
+        ot = getattr(node.operand, 'type', None)
+        if is_c_float(node.type) and is_c_int(ot) and isinstance(v, SInt):
+            try:
+                lo, hi = int_range(ot)
+            except Unsupported:
+                lo, hi = -2 ** 63, 2 ** 64 - 1
+            if hi > 2 ** 53 and ('double' in ctype_name(node.type) or 'float64' in ctype_name(node.type)):
+                return round_to_double(v)
         return self.to_ctype(v, node.type, node)
 
     def ev_IntNode(self, node, env):
